@@ -22,6 +22,9 @@ a file no declared ancestor produces.  The block kinds cover the mechanisms name
   run      run_target / alias_target / test(depends:) on generated data
   conf     configure_file (configuration / command) headers, custom_target with feed/capture
   subproj  subproject exporting a dependency with generated header + library
+  pair     wayland-scanner style proto.c / proto.h from two DIFFERENT steps, the generated .c includes the
+           generated .h: source listed before / after the header, header via declare_dependency(sources:),
+           generator()-produced .c including a custom_target header (both orders)
 
 The second family (`overlay_random`) takes ``projgen.random_project`` projects (odd names, subprojects,
 nested subdirs, both_libraries, generators) and makes their generated headers really included / their
@@ -38,21 +41,25 @@ from pathlib import Path
 
 from . import projgen
 
-KINDS = ('hdr', 'dep', 'gen', 'chain', 'tool', 'link', 'script', 'ctlib', 'run', 'conf', 'subproj')
+KINDS = ('hdr', 'dep', 'gen', 'chain', 'tool', 'link', 'script', 'ctlib', 'run', 'conf', 'subproj', 'pair')
 # rough number of build statements a block contributes (used to keep graphs explorable)
 WEIGHT = {'hdr': 8, 'dep': 8, 'gen': 11, 'chain': 8, 'tool': 15, 'link': 20, 'script': 7, 'ctlib': 7, 'run': 7,
-          'conf': 7, 'subproj': 7}
+          'conf': 7, 'subproj': 7, 'pair': 7}
 VARIANTS = {'hdr': 5, 'dep': 3, 'gen': 2, 'chain': 2, 'tool': 3, 'link': 2, 'script': 1, 'ctlib': 1, 'run': 1,
-            'conf': 1, 'subproj': 2}
+            'conf': 1, 'subproj': 2, 'pair': 5}
 
 GEN_SH = r"""#!/bin/sh
-# usage: gen.sh [-r FILE]... [-x PROG]... INPUT OUTPUT...
+# usage: gen.sh [-i HEADER]... [-r FILE]... [-x PROG]... INPUT OUTPUT...
+#   -i HEADER  every .c output starts with #include "HEADER"
 #   -r FILE  read FILE (fails when it is missing); its checksum goes into every output
 #   -x PROG  run PROG (fails when it cannot run); its output goes into every output
 # .c outputs define <stem>_fn(), .h outputs define <STEM>_VALUE, .map is a linker version script
 acc=""
+inc=""
 while :; do
   case "$1" in
+    -i) inc="$inc#include \"$2\"
+"; shift 2;;
     -r) f="$2"; shift 2; s=$(cksum < "$f") || exit 3; acc="$acc r:$(basename "$f"):${s%% *}";;
     -x) p="$2"; shift 2; o=$("$p") || exit 4; acc="$acc x:$(basename "$p"):$o";;
     *) break;;
@@ -66,7 +73,7 @@ for o in "$@"; do
   id=$(printf %s "$stem" | tr -c 'A-Za-z0-9' '_')
   up=$(printf %s "$id" | tr 'a-z' 'A-Z')
   case "$o" in
-    *.c) printf '/* %s */\nint %s_fn(void) { return 0; }\n' "$acc" "$id" > "$o" || exit 6;;
+    *.c) printf '%s/* %s */\nint %s_fn(void) { return 0; }\n' "$inc" "$acc" "$id" > "$o" || exit 6;;
     *.h) printf '/* %s */\n#define %s_VALUE 1\n' "$acc" "$up" > "$o" || exit 6;;
     *.map) printf '/* %s */\n{ global: *; };\n' "$acc" > "$o" || exit 6;;
     *) { echo "$acc"; cat "$in"; } > "$o" || exit 6;;
@@ -323,6 +330,26 @@ def _block(w: _W, b: T.Dict[str, T.Any]) -> None:
         w.line('', f"{p}_sp = subproject('{sp}')")
         F(f'{p}_main.c', _main_c([f'{p}_sp.h'], [f'{p}_splib'], f'{P}_SP_VALUE - 1 + {p}_splib()'))
         L(f"{p}_exe = executable('{p}_exe', '{p}_main.c', dependencies: {p}_sp.get_variable('{p}_dep'))")
+    elif kind == 'pair':
+        F(f'{p}_c.in', f'c {p}\n')
+        F(f'{p}_h.in', f'h {p}\n')
+        L(f"{p}_h = custom_target('{p}_h', input: '{p}_h.in', output: '{p}_proto.h', command: {GEN})")
+        if v in (3, 4):     # the including source comes out of a generator()
+            L(f"{p}_g = generator(gen, output: '@BASENAME@.c', arguments: ['-i', '{p}_proto.h', '@INPUT@', '@OUTPUT@'])")
+            F(f'{p}_proto.in', f'g {p}\n')
+            src = f"{p}_g.process('{p}_proto.in')"
+        else:
+            L(f"{p}_c = custom_target('{p}_c', input: '{p}_c.in', output: '{p}_proto.c', "
+              f"command: [gen, '-i', '{p}_proto.h', '@INPUT@', '@OUTPUT@'])")
+            src = f'{p}_c'
+        F(f'{p}_main.c', _main_c([], [f'{p}_proto_fn'], f'{p}_proto_fn()'))
+        if v in (0, 3):     # generated source BEFORE the generated header
+            L(f"{p}_exe = executable('{p}_exe', '{p}_main.c', {src}, {p}_h)")
+        elif v in (1, 4):   # header first
+            L(f"{p}_exe = executable('{p}_exe', {p}_h, '{p}_main.c', {src})")
+        else:               # header handed over by a dependency object (appended after the positional sources)
+            L(f"{p}_hdep = declare_dependency(sources: {p}_h)")
+            L(f"{p}_exe = executable('{p}_exe', '{p}_main.c', {src}, dependencies: {p}_hdep)")
     else:
         raise ValueError('unknown block kind ' + kind)
 
